@@ -61,7 +61,7 @@ def gen_cases(ctx):
             else:
                 runs.append(_p(interval=rng.choice([2, 3, 4]), st=rng.choice([NONE, 4, 6])))
     for i, p in enumerate(runs):
-        yield {"id": f"R{i}", "kind": "run", "T": 8, "p": p}
+        yield {"id": f"R{i}", "kind": "run", "T": 8, "p": p, "gated_kind": ("dipole", "mdipole", "plane")[i % 3]}
 
 
 def _switch(p, dt):
@@ -122,7 +122,9 @@ def _observe_run(case):
     dets = [{"kind": "field", "name": "all", "lo": [2, 2, 2], "hi": [4, 4, 4]}, {"kind": "field", "name": "sw", "lo": [2, 2, 2], "hi": [4, 4, 4], "switch": swk},
             {"kind": "energy", "name": "en_all", "lo": [1, 1, 1], "hi": [5, 5, 5]}, {"kind": "energy", "name": "en_sw", "lo": [1, 1, 1], "hi": [5, 5, 5], "switch": swk}]
     drive = {"pos": [3, 3, 3], "pol": 0, "name": "drive"}
-    gated = {"pos": [2, 3, 2], "pol": 1, "name": "gated", "switch": swk, "wl": 500e-9}
+    # the gated source cycles through the injection paths: electric dipole (E), magnetic dipole (H), plane source (E and H faces)
+    gk = case.get("gated_kind", "dipole")
+    gated = {"pos": [2, 3, 2], "pol": 1, "name": "gated", "switch": swk, "wl": 500e-9, "kind": gk, "axis": 2}
     obj_w, arr_w, config = S.build_scene(dict(base, sources=[drive, gated], detectors=dets))
     obj_n, arr_n, _ = S.build_scene(dict(base, sources=[drive], detectors=dets))
     # detector part: a real run
@@ -163,7 +165,8 @@ def _observe_run(case):
         adj = src.adjust_time_step_by_on_off(ts)
         z = jnp.zeros_like(arr_w.fields.E)
         e1 = src.update_E(z, inv_permittivities=arr_w.inv_permittivities, inv_permeabilities=arr_w.inv_permeabilities, time_step=adj, inverse=False)
-        would.append(bool(np.any(np.asarray(e1) != 0)))
+        h1 = src.update_H(z, inv_permittivities=arr_w.inv_permittivities, inv_permeabilities=arr_w.inv_permeabilities, time_step=adj + 0.5, inverse=False)
+        would.append(bool(np.any(np.asarray(e1) != 0) or np.any(np.asarray(h1) != 0)))
         state = nw
     return {"id": case["id"], "kind": "run", "T": T, "p": p, "det_n": n_sw, "det_fp": det_fp, "all_fp": all_fp, "src_delta": delta, "src_would": would,
             "raised": False, "on": [], "idx": []}
